@@ -56,6 +56,22 @@ func main() {
 	} else {
 		ids = args
 	}
+	if args[0] == "render" {
+		prog, err := core.Load()
+		if err != nil {
+			fmt.Println(err)
+			os.Exit(2)
+		}
+		max, filter := 3, ""
+		if len(args) > 3 {
+			fmt.Sscan(args[3], &max)
+		}
+		if len(args) > 4 {
+			filter = args[4]
+		}
+		props.RenderDebug(prog, args[1], args[2], max, filter)
+		return
+	}
 	prog, err := core.Load()
 	if err != nil {
 		// fail closed for each requested property
